@@ -179,6 +179,9 @@ def main(argv=None):
             for u in r["unconfirmed"]:
                 lines.append(f"UNCONFIRMED property={pid} case={u['case']} obligation={u['obligation']} (solver model does not replay on the real code: encoding/stub suspect) env={u['env']}")
             code = max(code, EXIT_HARNESS) if code != EXIT_VIOLATION else code
+        if "ob_total" in r and r.get("ob_total", 0) == 0 and r.get("ob_other_property", 0) == 0 and not r.get("violations"):
+            # vacuity guard: every path of the case was dropped (stub assumption not met / infeasible) before reaching an obligation
+            r.setdefault("inconclusive", []).append({"case": r.get("name"), "obligation": "*", "why": "vacuous: no path reached an obligation; path outcomes " + json.dumps(r.get("outcomes", {}))})
         if r.get("inconclusive"):
             for u in r["inconclusive"]:
                 lines.append(f"INCONCLUSIVE property={pid} case={u['case']} obligation={u['obligation']} {u.get('why','')}")
